@@ -196,7 +196,7 @@ func runRT(c rtCase, o *lib.Obs) error {
 	s.Outs = cx.OutNames(c.Versions[0])
 	model := map[int]int{}
 	restores := map[int]int{} // key -> number of stores so far
-	nontrivial := false
+	nontrivial, neverStored := false, false
 	for i, op := range c.Ops {
 		if op.Key < 0 || op.Key >= len(keys) || op.Version < 0 || op.Version >= len(c.Versions) {
 			continue
@@ -229,7 +229,7 @@ func runRT(c rtCase, o *lib.Obs) error {
 				return &lib.Inconclusive{Msg: err.Error()}
 			}
 			if !stored {
-				o.Label("rt_never_stored")
+				neverStored = true
 				if hit {
 					return lib.Failf("hit-never-stored", "op %d: Retrieve of key %d, which was never stored, reported a hit", i, op.Key)
 				}
@@ -261,6 +261,7 @@ func runRT(c rtCase, o *lib.Obs) error {
 		f, d, l, e = f+a, d+b, l+c2, e+d2
 	}
 	o.LabelIf(c.Compress, "compressed")
+	o.LabelIf(neverStored, "rt_never_stored")
 	o.LabelIf(l > 0, "rt_symlinks")
 	o.LabelIf(e > 0, "rt_empty_dirs")
 	o.LabelIf(d > 0, "rt_dirs")
@@ -615,7 +616,7 @@ func runConc(c concCase, o *lib.Obs) error {
 	dir, cleanup := lib.Scratch("c12cc-")
 	defer cleanup()
 	st := cx.Spec{Repo: filepath.Join(dir, "storer"), CacheDir: filepath.Join(dir, "cache"), Compress: c.Compress,
-		Pkg: "pkg", Name: "t", Key: keys[1], Outs: cx.OutNames(c.Outs), Op: "store", Repeat: c.Rounds * 20}
+		Pkg: "pkg", Name: "t", Key: keys[1], Outs: cx.OutNames(c.Outs), Op: "store", Repeat: c.Rounds * 20, PauseUS: 300}
 	rt := st
 	rt.Repo, rt.Op, rt.Repeat = filepath.Join(dir, "retriever"), "", 0
 	if err := cx.WriteOuts(st, c.Outs); err != nil {
